@@ -182,7 +182,22 @@ class Interp:
 
     def apply(self, op):
         name = op[0]
-        if name == "add":
+        if name == "wrapper":
+            # documented construction options; only meaningful before anything was added
+            if self.vars or self.flags:
+                raise IndexError("wrapper options after the first operation")
+            import flowpaths.utils.solverwrapper as sw
+
+            o = dict(op[1])
+            kw = {"threads": 1, "use_also_custom_timeout": bool(o.get("custom_timeout", False)), "presolve": o.get("presolve", "choose")}
+            if o.get("time_limit", 30) is not None:
+                kw["time_limit"] = 30
+            if kw["presolve"] not in ("choose", "on", "off"):
+                raise IndexError("presolve")
+            self.s = sw.SolverWrapper(**kw)
+            if kw["use_also_custom_timeout"] and "time_limit" in kw:
+                self.flags.add("custom_timeout_path")
+        elif name == "add":
             _, n, integer, style, lbs, ubs = op
             keys = [(self.n_groups, j) for j in range(n)]
             if style == "scalar":
@@ -369,6 +384,10 @@ def make_machine(tier, rec, raise_on_new):
             b = rec.record({"kind": "history", "ops": self.ops}, out)
             if b is not None and raise_on_new:
                 raise AssertionError(f"violation bucket {b}")
+
+        @initialize(custom=st.sampled_from([True, False, False]), tl=st.sampled_from([30, 30, None]), presolve=st.sampled_from(["choose", "choose", "on", "off"]))
+        def wrapper_options(self, custom, tl, presolve):
+            self._do(["wrapper", {"custom_timeout": custom, "time_limit": tl, "presolve": presolve}])
 
         @rule(n=st.integers(1, 3), integer=st.booleans(), style=st.sampled_from(["scalar", "dict", "seq"]),
               lbs=st.lists(st.integers(0, 3), min_size=3, max_size=3), widths=st.lists(st.integers(0, 5), min_size=3, max_size=3))
